@@ -147,6 +147,18 @@ func (b *Builder) AddCapture(captureIndex uint32, isStart bool, next StateID) St
 // look is the assertion type (start/end of text/line).
 // next is the state to transition to if the assertion succeeds.
 func (b *Builder) AddLook(look Look, next StateID) StateID {
+	// Bytes that an assertion distinguishes must not share a byte class,
+	// otherwise the DFA reuses a cached transition for a byte of the other kind.
+	switch look {
+	case LookWordBoundary, LookNoWordBoundary:
+		b.byteClassSet.SetRange('0', '9')
+		b.byteClassSet.SetRange('A', 'Z')
+		b.byteClassSet.SetRange('_', '_')
+		b.byteClassSet.SetRange('a', 'z')
+	case LookStartLine, LookEndLine:
+		b.byteClassSet.SetRange('\n', '\n')
+	}
+
 	id := StateID(conv.IntToUint32(len(b.states)))
 	b.states = append(b.states, State{
 		id:   id,
